@@ -100,12 +100,17 @@ def NdArr.zerosLike (a : NdArr) (n : Nat) : NdArr :=
 def remapRows (pmap : List Nat) (rows : List (List Nat)) : List (List Nat) :=
   rows.map fun row => row.map fun p => pmap.getD p 0
 
+/-- rows of the first block of type `ct` (`connectivity(ct)`; same as `Mesh.cellsOf`) -/
+def rowsOfType (cells : List (String × List (List Nat))) (ct : String) : List (List Nat) :=
+  match cells.find? (·.1 == ct) with
+  | some b => b.2
+  | none => []
+
 /-- merged cell blocks: the earlier mesh's types keep their position and receive the later
     piece's remapped rows; types new in the later piece are appended in its order -/
 def mergeCells (c1 c2 : List (String × List (List Nat))) (pmap : List Nat) :
     List (String × List (List Nat)) :=
-  c1.map (fun b => (b.1, b.2 ++ remapRows pmap
-      (match c2.find? (·.1 == b.1) with | some b2 => b2.2 | none => [])))
+  c1.map (fun b => (b.1, b.2 ++ remapRows pmap (rowsOfType c2 b.1)))
   ++ (c2.filter fun b2 => !(c1.any (·.1 == b2.1))).map fun b2 => (b2.1, remapRows pmap b2.2)
 
 def findCellField (cfs : List CellField) (name ct : String) : Option CellField :=
@@ -117,21 +122,25 @@ def dedupNames : List String → List String
   | [] => []
   | n :: r => n :: (dedupNames r).filter (· != n)
 
+/-- `cell_fields[ct][name]` after both loops: concatenated if both sides have the field on `ct` -/
+def mergeCellEntry (name ct : String) : Option CellField → Option CellField → Option CellField
+  | some a, some b => some ⟨name, ct, a.values.concat b.values⟩
+  | some a, none => some ⟨name, ct, a.values⟩
+  | none, some b => some ⟨name, ct, b.values⟩
+  | none, none => none   -- Python: KeyError
+
 /-- merged cell fields, listed type-major like `MeshFields.cell_fields_types` -/
 def mergeCellFields (types : List String) (cf1 cf2 : List CellField) : List CellField :=
-  let names := dedupNames (cf1.map (·.name) ++ cf2.map (·.name))
-  types.flatMap fun ct => names.filterMap fun name =>
-    match findCellField cf1 name ct, findCellField cf2 name ct with
-    | some a, some b => some ⟨name, ct, a.values.concat b.values⟩
-    | some a, none => some ⟨name, ct, a.values⟩
-    | none, some b => some ⟨name, ct, b.values⟩
-    | none, none => none   -- Python: KeyError
+  types.flatMap fun ct => (dedupNames (cf1.map (·.name) ++ cf2.map (·.name))).filterMap fun name =>
+    mergeCellEntry name ct (findCellField cf1 name ct) (findCellField cf2 name ct)
+
+/-- a point field of the earlier mesh, extended by the later piece's kept rows (or zeros) -/
+def mergePointEntry (n2 : Nat) (filt : List Nat) (a : PointField) : Option PointField → PointField
+  | some b => ⟨a.name, a.values.concat (b.values.takeRows filt)⟩
+  | none => ⟨a.name, a.values.concat (a.values.zerosLike n2)⟩
 
 def mergePointFields (n1 n2 : Nat) (filt : List Nat) (pf1 pf2 : List PointField) : List PointField :=
-  pf1.map (fun a =>
-    match pf2.find? (·.name == a.name) with
-    | some b => ⟨a.name, a.values.concat (b.values.takeRows filt)⟩
-    | none => ⟨a.name, a.values.concat (a.values.zerosLike n2)⟩)
+  pf1.map (fun a => mergePointEntry n2 filt a (pf2.find? (·.name == a.name)))
   ++ (pf2.filter fun b => !(pf1.any (·.name == b.name))).map fun b =>
       ⟨b.name, (b.values.zerosLike n1).concat (b.values.takeRows filt)⟩
 
